@@ -125,12 +125,13 @@ def _worker_main(wid, nworkers, wfd, shm, make_cases, run_case, init, start_inde
 
 
 def _new_acc():
-    return {"evaluations": 0, "nt": set(), "states": 0, "transitions": 0, "outcomes": {}, "viols": [],
+    return {"evaluations": 0, "nt": set(), "nt_extra": 0, "states": 0, "transitions": 0, "outcomes": {}, "viols": [],
             "samples": [], "harness_errors": [], "extra": {}}
 
 
 def _accumulate(acc, cid, res):
-    acc["evaluations"] += 1
+    acc["evaluations"] += res.get("evals", 1)
+    acc["nt_extra"] += res.get("nt_count", 0)
     nt = res.get("nt")
     if nt is not None:
         acc["nt"].add(hashlib.sha1(repr(nt).encode()).digest()[:8])
@@ -158,6 +159,7 @@ def _accumulate(acc, cid, res):
 
 def _merge(total, acc):
     total["evaluations"] += acc["evaluations"]
+    total["nt_extra"] += acc.get("nt_extra", 0)
     total["nt"] |= acc["nt"]
     total["states"] += acc["states"]
     total["transitions"] += acc["transitions"]
@@ -449,7 +451,7 @@ def finish(prop_id, level, tier, seed, total, t0, rule, assumptions, bounds, exh
     wall = time.time() - t0
     coverage = {
         "evaluations": total["evaluations"],
-        "distinct_nontrivial": len(total["nt"]),
+        "distinct_nontrivial": len(total["nt"]) + total.get("nt_extra", 0),
         "rule": rule,
         "samples": total["samples"][:4] or ["(no sample recorded)"],
         "states": total["states"],
